@@ -286,7 +286,10 @@ where
 
 /// Run a closure, turning a panic into an error string (the code under test must never panic on input).
 pub fn guarded<T>(f: impl FnOnce() -> T) -> Result<T, String> {
-    match std::panic::catch_unwind(std::panic::AssertUnwindSafe(f)) {
+    GUARD_DEPTH.with(|d| d.set(d.get() + 1));
+    let r = std::panic::catch_unwind(std::panic::AssertUnwindSafe(f));
+    GUARD_DEPTH.with(|d| d.set(d.get() - 1));
+    match r {
         Ok(v) => Ok(v),
         Err(e) => {
             let msg = if let Some(s) = e.downcast_ref::<&str>() {
@@ -296,13 +299,29 @@ pub fn guarded<T>(f: impl FnOnce() -> T) -> Result<T, String> {
             } else {
                 "non-string panic".to_string()
             };
-            Err(msg)
+            // where it happened (recorded by the panic hook): the driver tells a panic of the code under test from a
+            // mistake of the monitor's own code by this
+            let loc = LAST_PANIC_AT.with(|l| l.borrow().clone());
+            Err(if loc.is_empty() { msg } else { format!("{msg} [panicked at {loc}]") })
         }
     }
 }
 
+thread_local! {
+    static GUARD_DEPTH: std::cell::Cell<u32> = const { std::cell::Cell::new(0) };
+    static LAST_PANIC_AT: std::cell::RefCell<String> = const { std::cell::RefCell::new(String::new()) };
+}
+
+/// Panics inside `guarded` are expected events (they become violations with their location); a panic anywhere else kills
+/// the monitor, and its location is printed so that the driver can classify it.
 pub fn quiet_panics() {
-    std::panic::set_hook(Box::new(|_| {}));
+    std::panic::set_hook(Box::new(|info| {
+        let loc = info.location().map(|l| format!("{}:{}", l.file(), l.line())).unwrap_or_default();
+        LAST_PANIC_AT.with(|l| *l.borrow_mut() = loc.clone());
+        if GUARD_DEPTH.with(|d| d.get()) == 0 {
+            eprintln!("UNGUARDED-PANIC at {loc}: {}", info.to_string().replace('\n', " "));
+        }
+    }));
 }
 
 pub type CheckFn = fn(&Cfg) -> Stats;
